@@ -5,7 +5,7 @@ the structural clauses: sorting only exchanges elements (same multiset), time-se
 histogram accounts for every sample exactly once, copies copy what they allocate."""
 import re
 
-from ..astutil import kids, strip, walk, callee_ref, render, loc, int_value
+from ..astutil import kids, strip, walk, callee_ref, render, loc, int_value, float_value
 from ..frontend import AnalysisBroken
 from ..report import Report
 from ..vals import FuncCtx, is_assert_stmt
@@ -101,27 +101,67 @@ def _norm(t):
     return re.sub(r"[\s()]", "", re.sub(r"(?<=\d)[uU][lL]*\b", "", t))
 
 
+def loop_shape(cx, f, lp):
+    """A counting loop (for or while) as (variable declaration, condition 'v>=0', step 'v--', body statements without the
+    step).  The step of a while loop must be its last statement - stepping before the work shifts every index."""
+    ivars, guard = inv.induction_vars(cx, f, lp)
+    if guard is None:
+        return None
+    nm, op, bound = guard
+    d = ivars[nm][1]
+    decl = None
+    for x in walk(f.body):
+        if x["kind"] == "VarDecl" and x.get("name") == nm and kids(x):
+            decl = x
+    if decl is None:
+        return None
+    body = kids(lp)[-1]
+    stmts = kids(body) if body["kind"] == "CompoundStmt" else [body]
+
+    def is_step(st_):
+        c = strip(st_, casts=True)
+        if c["kind"] == "UnaryOperator" and c.get("opcode") in ("++", "--"):
+            return render(strip(kids(c)[0], casts=True)) == nm
+        if c["kind"] in ("CompoundAssignOperator", "BinaryOperator") and c.get("opcode") in ("+=", "-=", "="):
+            return render(strip(kids(c)[0], casts=True)) == nm
+        return False
+    if lp["kind"] == "WhileStmt":
+        if not stmts or not is_step(stmts[-1]):
+            return None
+        stmts = stmts[:-1]
+    if any(is_step(st_) for st_ in stmts):
+        return None
+    return {"decl": decl, "var": nm, "cond": "%s%s%s" % (nm, op, _norm(bound)),
+            "inc": "%s%s" % (nm, "--" if d == -1 else "++" if d == 1 else "+=%d" % d), "body": stmts}
+
+
 # ---------------------------------------------------------------------------------------------------------
+class _BadPosition(Exception):
+    pass
+
+
 class _SiftEval:
     """Evaluate one round of a sift-down body over an abstraction: positions R (root), L, T (left / right child),
-    which children exist, and the weak order of the three key values."""
+    which children exist, and the weak order of the three key values.  Index values are affine forms a*root + b of the
+    root of 'generation' 0 (at the top of the round) or 1 (after the root moved down): (1,0) is R, (2,1) L, (2,2) T."""
 
     class Stop(Exception):
         pass
 
-    def __init__(self, f, key, n, root, left, right):
+    TOK = {(1, 0): "R", (2, 1): "L", (2, 2): "T"}
+
+    def __init__(self, f, key, n, root, env0, flag=None):
         self.f, self.key, self.n = f, key, n
-        self.names = {root: "R", left: "L", right: "T"}
-        self.root, self.left, self.right = root, left, right
+        self.root, self.env0, self.flag = root, dict(env0), flag
 
     def run(self, body, where, rank):
         self.where, self.rank = where, rank
         self.exists = {k_: v_ == "in" for k_, v_ in where.items()}
-        self.env = {self.root: "R", self.left: "L", self.right: "T"}
+        self.env = dict(self.env0)
+        self.declared = set()
         self.swaps = []
         self.stopped = False
         self.new_root = None
-        self.recomputed = set()
         self.oob = None
         try:
             self.stmt(body)
@@ -129,11 +169,48 @@ class _SiftEval:
             self.stopped = True
         return self
 
-    def pos(self, n):
+    def aff(self, n):
+        """(gen, a, b) | ('c', 0, value) | None"""
         n = strip(n, casts=True)
-        if n["kind"] == "DeclRefExpr" and n["ref"]["name"] in self.env:
-            return self.env[n["ref"]["name"]]
-        raise AnalysisBroken("sift evaluation: index expression %s not understood" % render(n))
+        k = n["kind"]
+        if k == "IntegerLiteral":
+            return ("c", 0, int(n["value"]))
+        if k == "DeclRefExpr":
+            return self.env.get(n["ref"]["name"])
+        if k == "BinaryOperator" and n.get("opcode") in ("+", "-", "*", "<<"):
+            x, y = self.aff(kids(n)[0]), self.aff(kids(n)[1])
+            if x is None or y is None:
+                return None
+            op = n["opcode"]
+            if op in ("+", "-"):
+                sg = 1 if op == "+" else -1
+                if x[0] != "c" and y[0] != "c":
+                    return None
+                g = x[0] if x[0] != "c" else y[0]
+                if op == "-" and x[0] == "c" and y[0] != "c":
+                    return None
+                return (g, x[1] + sg * y[1], x[2] + sg * y[2])
+            if op == "*":
+                if x[0] == "c":
+                    x, y = y, x
+                if y[0] != "c":
+                    return None
+                return (x[0], x[1] * y[2], x[2] * y[2])
+            if op == "<<" and y[0] == "c":
+                return (x[0], x[1] << y[2], x[2] << y[2])
+        return None
+
+    def pos(self, n):
+        v = self.aff(n)
+        if v is None:
+            raise AnalysisBroken("sift evaluation: index expression %s not understood" % render(n))
+        if v[0] != 0:
+            raise AnalysisBroken("sift evaluation: index %s is used after the root moved" % render(n))
+        t = self.TOK.get((v[1], v[2]))
+        if t is None:
+            raise _BadPosition("%s is %d*root%+d: neither the root nor one of its children 2*root+1 / 2*root+2"
+                               % (render(strip(n, casts=True)), v[1], v[2]))
+        return t
 
     def cond(self, n):
         n = strip(n, casts=True)
@@ -175,8 +252,10 @@ class _SiftEval:
                 self.stmt(c)
         elif k == "DeclStmt":
             for d in kids(n):
-                if d["kind"] == "VarDecl" and kids(d):
-                    self.env[d["name"]] = self.pos(kids(d)[0])
+                if d["kind"] == "VarDecl":
+                    self.declared.add(d["name"])
+                    if kids(d):
+                        self.env[d["name"]] = self.aff(kids(d)[0])
         elif k == "IfStmt":
             ch = kids(n)
             if self.cond(ch[0]):
@@ -185,23 +264,24 @@ class _SiftEval:
                 self.stmt(ch[2])
         elif k == "BreakStmt":
             raise _SiftEval.Stop()
+        elif k == "ReturnStmt" and not kids(n):
+            raise _SiftEval.Stop()
         elif k == "BinaryOperator" and n.get("opcode") == "=":
             l = strip(kids(n)[0])
             if l["kind"] != "DeclRefExpr":
                 raise AnalysisBroken("sift evaluation: store to %s" % render(l))
             nm = l["ref"]["name"]
             r_ = strip(kids(n)[1], casts=True)
-            if nm == self.root:
+            if nm == self.flag:
+                v = int_value(r_)
+                if v is None:
+                    raise AnalysisBroken("sift evaluation: loop flag set to %s" % render(r_))
+                self.stopped = self.stopped or v == 0
+            elif nm == self.root:
                 self.new_root = self.pos(r_)
-            elif nm in (self.left, self.right):
-                txt = _norm(render(r_))
-                want = "2*%s+%d" % (self.root, 1 if nm == self.left else 2)
-                if txt == want and self.new_root is not None:
-                    self.recomputed.add(nm)
-                else:
-                    self.recomputed.add(nm + ":wrong:" + txt)
+                self.env[nm] = (1, 1, 0)
             else:
-                self.env[nm] = self.pos(r_)
+                self.env[nm] = self.aff(r_)
         elif k == "CallExpr" and callee_ref(n) == "cmi_dataset_swap":
             a = [strip(z, casts=True) for z in kids(n)[1:]]
             ps = []
@@ -218,6 +298,18 @@ class _SiftEval:
         else:
             raise AnalysisBroken("sift evaluation: unsupported statement %s at line %s" % (k, n.get("line")))
 
+    def stale(self):
+        """after the root moved: the index variables that are carried into the next round (set before the loop, not
+        declared in the body) and are not the same function of the new root as they were of the old"""
+        out = []
+        for nm, v0 in self.env0.items():
+            if nm in self.declared or v0 is None or v0[0] != 0:
+                continue
+            v1 = self.env.get(nm)
+            if v1 is None or v1[0] != 1 or (v1[1], v1[2]) != (v0[1], v0[2]):
+                out.append(nm)
+        return out
+
 
 def check_sift(rep, rule, m, f):
     """Exhaustive check of one sift-down round: over which children exist and all weak orders of (root, left, right)."""
@@ -227,23 +319,29 @@ def check_sift(rep, rule, m, f):
     loops = [x for x in kids(f.body) if x["kind"] in ("ForStmt", "WhileStmt")]
     if len(loops) != 1:
         raise AnalysisBroken("%s: expected one sift loop" % f.name)
-    body = kids(loops[0])[-1]
-    # children indices before the loop
-    child = {}
+    lp = loops[0]
+    body = kids(lp)[-1]
+    flag = None
+    if lp["kind"] == "WhileStmt":
+        c0 = strip(kids(lp)[0], casts=True)
+        if c0["kind"] == "DeclRefExpr" and c0["ref"].get("kind") != "ParmVarDecl":
+            flag = c0["ref"]["name"]
+        elif int_value(c0) is None:
+            raise AnalysisBroken("%s: the sift loop's condition %s is not understood" % (f.name, render(c0)))
+    elif any(c_["kind"] != "Null" for c_ in kids(lp)[:4] if c_ is not None and c_.get("kind")):
+        if any(kids(lp)[i]["kind"] != "Null" for i in (0, 2, 3)):
+            raise AnalysisBroken("%s: the sift loop has a header that is not understood" % f.name)
+    # index variables set before the loop, as functions of the root
+    pre = _SiftEval(f, key, n, root, {root: (0, 1, 0)})
+    pre.env = dict(pre.env0)
+    pre.declared = set()
     for x in kids(f.body):
+        if x is lp:
+            break
         if x["kind"] == "DeclStmt":
-            for d in kids(x):
-                if d["kind"] == "VarDecl" and kids(d):
-                    txt = _norm(render(kids(d)[0]))
-                    if txt == "2*%s+1" % root:
-                        child["L"] = d["name"]
-                    if txt == "2*%s+2" % root:
-                        child["T"] = d["name"]
-    if set(child) != {"L", "T"}:
-        rep.finding(rule, f.name, "sift:children", "%s does not start from the children 2*root+1 and 2*root+2" % f.name, where=m.rel(f.where))
-        rule.fail()
-        return
-    ev = _SiftEval(f, key, n, root, child["L"], child["T"])
+            pre.stmt(x)
+    env0 = {k_: v_ for k_, v_ in pre.env.items() if v_ is not None and v_[0] == 0}
+    ev = _SiftEval(f, key, n, root, env0, flag)
     cases = 0
     bad = {}
     for ex_ in (("out", "out"), ("edge", "out"), ("in", "edge"), ("in", "in")):
@@ -252,11 +350,15 @@ def check_sift(rep, rule, m, f):
         for ranks in itertools.product(range(3), repeat=3):
             rank = dict(zip("RLT", ranks))
             cases += 1
-            r_ = ev.run(body, where, rank)
             live = [p_ for p_ in "RLT" if exists[p_]]
             top = max(rank[p_] for p_ in live)
             desc = "children %s, keys %s" % ("+".join(p_ for p_ in "LT" if exists[p_]) or "none",
                                             " ".join("%s=%d" % (p_, rank[p_]) for p_ in live))
+            try:
+                r_ = ev.run(body, where, rank)
+            except _BadPosition as e:
+                bad.setdefault("sift:children", ("does not work on the children 2*root+1 and 2*root+2: %s" % e, desc))
+                continue
             if r_.oob:
                 bad.setdefault("sift:out-of-range", (r_.oob, desc))
                 continue
@@ -279,9 +381,9 @@ def check_sift(rep, rule, m, f):
             if r_.stopped:
                 bad.setdefault("sift:no-continue", ("exchanges but does not continue below", desc))
                 continue
-            if r_.recomputed != {child["L"], child["T"]}:
+            if r_.stale():
                 bad.setdefault("sift:children-stale", ("after moving down the children indices are not recomputed as 2*root+1 / "
-                                                       "2*root+2 (%s)" % sorted(r_.recomputed), desc))
+                                                       "2*root+2 (%s keep their old value or get another one)" % sorted(r_.stale()), desc))
     rule.instance("%s: %d abstract cases (children present x weak orders of root/left/right)" % (f.name, cases))
     rep.sample({"rule": rule.id if hasattr(rule, "id") else "R-C18-5", "function": f.name, "cases": cases, "failures": len(bad)})
     for kind, (why, desc) in bad.items():
@@ -349,6 +451,7 @@ def rules(rep, m):
                   "the three distinct arrays: each sample keeps its own time and weight", floor=4)
     for n in ("cmb_timeseries_sort_x", "cmb_timeseries_sort_t", "timeseries_heapify"):
         f = funcs[n]
+        cx2 = FuncCtx(m, f)
         for blk in walk(f.body):
             if blk["kind"] != "CompoundStmt":
                 continue
@@ -375,8 +478,11 @@ def rules(rep, m):
                 r2.ok()
         for c in walk(f.body):
             if c["kind"] == "CallExpr" and callee_ref(c) == "timeseries_heapify":
-                a_ = [render(z) for z in kids(c)[2:5]]
+                a_ = [cx2.canon(z) for z in kids(c)[2:5]]
                 base = {re.sub(r"^.*->", "", x) for x in a_}
+                if n == "timeseries_heapify":
+                    # the recursion hands on its own three parameters
+                    base = {{f.params[1]["name"]: "xa", f.params[2]["name"]: "ta", f.params[3]["name"]: "wa"}.get(x, x) for x in a_}
                 r2.instance("%s: heapify(%s)" % (n, ", ".join(a_)))
                 if base != {"xa", "ta", "wa"}:
                     rep.finding(r2, n, "heapify-arrays", "%s sifts (%s): not the three distinct sample arrays" % (n, ", ".join(a_)),
@@ -387,7 +493,8 @@ def rules(rep, m):
     # the key array matches the sort's name
     for n, key in (("cmb_timeseries_sort_x", "xa"), ("cmb_timeseries_sort_t", "ta")):
         f = funcs[n]
-        keys = {re.sub(r"^.*->", "", render(kids(c)[2])) for c in walk(f.body)
+        cx2 = FuncCtx(m, f)
+        keys = {re.sub(r"^.*->", "", cx2.canon(kids(c)[2])) for c in walk(f.body)
                 if c["kind"] == "CallExpr" and callee_ref(c) == "timeseries_heapify"}
         if keys != {key}:
             rep.finding(r2, n, "sort-key", "%s sorts by %s, not by %s" % (n, sorted(keys), key), where=m.rel(f.where))
@@ -399,57 +506,117 @@ def rules(rep, m):
     r3 = rep.rule("R-C18-3", "histogram filling assigns a bin on every path of an exhaustive if / else-if / else, adds exactly "
                   "one contribution per iteration (1 per sample, the duration per time-series sample) and runs over [0, n) "
                   "for datasets and [0, n - 1) for time series (the last sample has no duration yet)", floor=2)
-    for fname, wexpr, bound in (("cmi_dataset_histogram_fill", "1", "(ui < n)"),
-                                ("timeseries_histogram_fill", "wa[ui]", "(ui < (n - 1))")):
+    for fname, wexpr in (("cmi_dataset_histogram_fill", "1"), ("timeseries_histogram_fill", "wa[ui]")):
         f = m.func_named(fname)[0]
         cx = FuncCtx(m, f)
-        loops = [x for x in walk(f.body) if x["kind"] == "ForStmt"]
+        loops = [x for x in walk(f.body) if x["kind"] in ("ForStmt", "WhileStmt")]
         if len(loops) != 1:
             raise AnalysisBroken("%s: expected one loop" % fname)
         lp = loops[0]
-        lv = None
-        for x in walk(kids(lp)[0]):
-            if x["kind"] == "VarDecl":
-                lv = (x["name"], int_value(kids(x)[0]) if kids(x) else None)
-        b = cx.canon(kids(lp)[2]).replace(lv[0] if lv else "ui", "ui").replace(f.params[1]["name"], "n")
-        r3.instance("%s: loop from %s while %s" % (fname, lv, b))
-        if not lv or lv[1] != 0 or b != bound:
-            rep.finding(r3, fname, "range", "the fill loop runs from %s while %s; expected from 0 while %s" % (lv, b, bound),
-                        where=m.rel(loc(lp)))
+        nname, xname = f.params[1]["name"], f.params[2]["name"]
+        ivars, guard = inv.induction_vars(cx, f, lp)
+        trip = inv.trip_count(ivars, guard)
+        want_trip = nname if fname.startswith("cmi") else "(%s - 1)" % nname
+        body = kids(lp)[-1]
+
+        def deref(n, depth=0):
+            """follow single-definition locals (also the copies NORM makes for inlined helpers) to the expression meant"""
+            n = strip(n, casts=True)
+            if depth > 12:
+                return n
+            if n["kind"] == "DeclRefExpr" and n["ref"].get("kind") != "ParmVarDecl":
+                d = cx.single_def(n["ref"]["id"])
+                if d is not None:
+                    return deref(d, depth + 1)
+            if n["kind"] == "UnaryOperator" and n.get("opcode") == "*":
+                inner = deref(kids(n)[0], depth + 1)
+                if inner["kind"] == "UnaryOperator" and inner.get("opcode") == "&":
+                    return deref(kids(inner)[0], depth + 1)
+            return n
+
+        def cursor(n):
+            """(array, 'index'|'pointer') if n reads the element the loop is at: A[i] with i running 0,1,2... or *p with
+            p running A, A+1, ..."""
+            n = deref(n)
+            if n["kind"] == "ArraySubscriptExpr":
+                i = strip(kids(n)[1], casts=True)
+                if i["kind"] == "DeclRefExpr" and ivars.get(i["ref"]["name"]) == ("0", 1):
+                    return (cx.canon(kids(n)[0]), "index")
+            if n["kind"] == "UnaryOperator" and n.get("opcode") == "*":
+                q = strip(kids(n)[0], casts=True)
+                if q["kind"] == "DeclRefExpr" and q["ref"]["name"] in ivars and ivars[q["ref"]["name"]][1] == 1:
+                    return (ivars[q["ref"]["name"]][0], "pointer")
+            return None
+
+        # the sample that is binned: the value compared with the lower limit
+        samples = []
+        for y in walk(body):
+            if y["kind"] == "BinaryOperator" and y.get("opcode") in ("<", ">", "<=", ">=") and \
+                    any(cx.canon(z).endswith("->low_lim") for z in kids(y)):
+                for z in kids(y):
+                    if not cx.canon(z).endswith("->low_lim"):
+                        samples.append(cursor(z))
+        r3.instance("%s: loop runs %s times over %s" % (fname, trip, samples))
+        if trip is None or not samples:
+            raise AnalysisBroken("%s: the fill loop is not a counting loop over the samples (induction variables %s, guard %s)"
+                                 % (fname, ivars, guard))
+        if trip != want_trip or any(c_ is None or c_[0] != xname for c_ in samples):
+            rep.finding(r3, fname, "range", "the fill loop runs %s times over %s; expected %s times over %s[0], %s[1], ..."
+                        % (trip, samples, want_trip, xname, xname), where=m.rel(loc(lp)))
             r3.fail()
         else:
             r3.ok()
-        body = kids(lp)[4]
-        adds = [(render(kids(y)[0]), render(kids(y)[1]), y) for y in walk(body)
-                if y["kind"] == "CompoundAssignOperator" and y.get("opcode") == "+=" and "hbins[" in render(kids(y)[0])]
+        adds = []
+        for y in walk(body):
+            if y["kind"] == "CompoundAssignOperator" and y.get("opcode") == "+=":
+                tgt = deref(kids(y)[0])
+                if tgt["kind"] == "ArraySubscriptExpr" and cx.canon(kids(tgt)[0]).endswith("->hbins"):
+                    adds.append((tgt, kids(y)[1], y))
         top = [y for y in kids(body)]
         okadd = len(adds) == 1 and any(strip(t, casts=True) is adds[0][2] for t in top)
         if okadd:
-            val = adds[0][1].replace(lv[0], "ui")
-            val = re.sub(r"^1(\.0)?$", "1", val)
-            wn = wexpr if fname.startswith("cmi") else "%s[ui]" % f.params[3]["name"]
-            okadd = val == wn
-        r3.instance("%s: contributions %s" % (fname, [(a_[0], a_[1]) for a_ in adds]))
+            v = deref(adds[0][1])
+            if fname.startswith("cmi"):
+                okadd = float_value(v) == 1.0
+            else:
+                okadd = cursor(v) in ((f.params[3]["name"], "index"), (f.params[3]["name"], "pointer")) and \
+                    {c_[1] for c_ in samples} == {cursor(v)[1]}
+        shown = [(render(a_[0]), render(deref(a_[1]))) for a_ in adds]
+        r3.instance("%s: contributions %s" % (fname, shown))
         if not okadd:
             rep.finding(r3, fname, "contribution", "each iteration must add exactly one contribution (%s) to exactly one bin, "
-                        "unconditionally; found %s" % (wexpr, [(a_[0], a_[1]) for a_ in adds]), where=m.rel(loc(lp)))
+                        "unconditionally; found %s" % (wexpr, shown), where=m.rel(loc(lp)))
             r3.fail()
         else:
             r3.ok()
         # bin assigned on every path
-        binvar = re.search(r"hbins\[(\w+)\]", adds[0][0]).group(1) if adds else None
+        binvar = None
+        if adds:
+            bi = strip(kids(adds[0][0])[1], casts=True)
+            for _ in range(8):
+                if bi["kind"] == "DeclRefExpr" and bi["ref"].get("kind") != "ParmVarDecl" and cx.single_def(bi["ref"]["id"]) is not None \
+                        and strip(cx.single_def(bi["ref"]["id"]), casts=True)["kind"] == "DeclRefExpr":
+                    bi = strip(cx.single_def(bi["ref"]["id"]), casts=True)
+                else:
+                    break
+            binvar = bi["ref"]["id"] if bi["kind"] == "DeclRefExpr" else None
         chain = [t for t in top if t["kind"] == "IfStmt"]
         def assigns(n):
-            return any(y["kind"] == "BinaryOperator" and y.get("opcode") == "=" and render(kids(y)[0]) == binvar for y in walk(n))
+            return any(y["kind"] == "BinaryOperator" and y.get("opcode") == "=" and
+                       strip(kids(y)[0], casts=True)["kind"] == "DeclRefExpr" and strip(kids(y)[0], casts=True)["ref"]["id"] == binvar
+                       for y in walk(n))
         def exhaustive(ifn):
             ch = kids(ifn)
             if len(ch) < 3:
                 return False
             if not assigns(ch[1]):
                 return False
-            if ch[2]["kind"] == "IfStmt":
-                return exhaustive(ch[2])
-            return assigns(ch[2])
+            e = ch[2]
+            while e["kind"] == "CompoundStmt" and len(kids(e)) == 1:
+                e = kids(e)[0]
+            if e["kind"] == "IfStmt":
+                return exhaustive(e)
+            return assigns(e)
         okbin = binvar is not None and any(exhaustive(c_) for c_ in chain)
         if not okbin:
             rep.finding(r3, fname, "bin-assignment", "the bin index is not assigned on every path of an exhaustive if/else chain",
@@ -538,11 +705,14 @@ def rules(rep, m):
                   ("cmb_timeseries_sort_t", "timeseries_heapify")):
         f = funcs[n]
         cx = FuncCtx(m, f)
-        loops = [x for x in walk(f.body) if x["kind"] == "ForStmt"]
+        loops = [x for x in walk(f.body) if x["kind"] in ("ForStmt", "WhileStmt")]
         hcalls = [c for c in walk(f.body) if c["kind"] == "CallExpr" and callee_ref(c) == hp]
         if len(loops) != 2 or len(hcalls) != 2:
             raise AnalysisBroken("%s: expected a build loop and an extraction loop with one sift call each" % n)
         build, extract = loops
+        bshape, eshape = loop_shape(cx, f, build), loop_shape(cx, f, extract)
+        if bshape is None or eshape is None:
+            raise AnalysisBroken("%s: the build / extraction loops are not counting loops that step once at the end of each round" % n)
         cnt = None
         # element count: the variable/expr passed as heap size in the build loop
         bc = [c for c in hcalls if any(y is c for y in walk(build))]
@@ -558,12 +728,11 @@ def rules(rep, m):
         else:
             r6.ok()
         # build loop: var from n/2 - 1 (or higher) while >= 0, decreasing; sift(root = var)
-        bk = kids(build)
-        bv = [x for x in walk(bk[0]) if x["kind"] == "VarDecl"]
+        bv = [bshape["decl"]]
         binit = _norm(re.sub(r"\(int64_t\)|\(long\)", "", cx.canon(kids(bv[0])[0]))) if bv and kids(bv[0]) else None
         sz = re.sub(r"[\s()]", "", size_b)
-        bcond = _norm(render(bk[2]))
-        binc = re.sub(r"[\s()]", "", render(bk[3]))
+        bcond = bshape["cond"]
+        binc = bshape["inc"]
         vname = bv[0]["name"] if bv else "?"
         signed = bv and "int64_t" in (bv[0].get("type") or "") and "uint" not in (bv[0].get("type") or "")
         # the first node sifted must be at least the last internal node n/2 - 1 and a valid index, for both parities
@@ -598,12 +767,11 @@ def rules(rep, m):
         else:
             r6.ok()
         # extraction loop: end from n-1 while > 0 decreasing; exchange [0] <-> [end] first, then sift(end, ..., 0)
-        ek = kids(extract)
-        evs = [x for x in walk(ek[0]) if x["kind"] == "VarDecl"]
+        evs = [eshape["decl"]]
         ename = evs[0]["name"] if evs else "?"
         einit = _norm(cx.canon(kids(evs[0])[0])) if evs and kids(evs[0]) else None
-        econd = _norm(render(ek[2]))
-        einc = re.sub(r"[\s()]", "", render(ek[3]))
+        econd = eshape["cond"]
+        einc = eshape["inc"]
         ok_range = einit == "%s-1" % sz and econd in ("%s>0" % ename, "%s>=1" % ename, "%s!=0" % ename) and einc in (ename + "--", "--" + ename)
         if not ok_range:
             rep.finding(r6, n, "extract:range", "%s extracts with '%s = %s; %s; %s': the maximum has to be moved to every position "
@@ -611,7 +779,7 @@ def rules(rep, m):
             r6.fail()
         else:
             r6.ok()
-        body = kids(ek[4]) if ek[4]["kind"] == "CompoundStmt" else [ek[4]]
+        body = eshape["body"]
         order = []
         for st_ in body:
             c = strip(st_, casts=True)
@@ -727,7 +895,6 @@ def rules(rep, m):
         r7.ok()
     zero = [(t, n_) for t, b, c, n_ in se.stores if b == arr + "[]" and re.fullmatch(r"%s\[0u?\]" % arr, t)]
     lag0 = [strip(kids(n_)[1], casts=True) for t, n_ in zero]
-    from ..astutil import float_value
     if len(lag0) != 1 or float_value(lag0[0]) != 1.0:
         rep.finding(r7, acf.name, "acf:lag0", "the coefficient at lag zero is not the literal 1", where=m.rel(acf.where))
         r7.fail()
